@@ -331,6 +331,52 @@ PLANNED = {
 }
 
 
+# Units added after the seeded rounds 6 and 7 (appended to the texts above)
+EXTRA = {
+    'C01': 'The byte-level VarInt contracts (length prefixes) and the generic field-list writer are discharged under this property too.',
+    'C02': 'PacketBuffer - the sink and source every encoding is observed through - is proved against its abstract view (content, cursor) '
+           'from any reachable state: send appends, reset empties wherever the cursor is, get_writable returns an immutable snapshot.',
+    'C03': 'PacketBuffer (the sink the produced bytes are observed through) is under the same contract as in C02.',
+    'C04': 'The version-order predicates that choose the layout are discharged under this property too (strict total order over all known versions).',
+    'C05': 'Dependencies discharged under this property as well: the byte-level contracts of every field type incl. VarLong and arrays of any '
+           'length, PacketBuffer, Position / ChunkSectionPos / Record, the version order, flag names used by field_string.',
+    'C06': 'The version-order contract the id ladders are evaluated with is discharged under this property too.',
+    'C07': 'The byte-level contracts of the field types the core packets use (C02/C03 units) are discharged under this property too; bounded '
+           'byte-level comparison with VarInt values and string / array lengths on both sides of the 1/2/3-byte boundaries.',
+    'C09': 'Also under this property: the wire id of the login start for every supported version (specification table), the connection '
+           'lifecycle and connect model, the write dispatch, String / TrailingByteArray decoding.',
+    'C10': 'Also: _connect starts every login from plain framing whatever an earlier login on the same object negotiated; dependencies '
+           '(verification hash, frame writer, String / TrailingByteArray / VarInt decoding, generic field writer) discharged here too.',
+    'C11': 'Also: a position-and-look packet laid out per the specification (teleport id from 107, dismount flag from 755) is decoded and '
+           'consumed exactly, for every supported version; every packet object is true (the read loop takes a false value for "nothing read"); '
+           'dependencies (write dispatch, lifecycle, connect model, handshake shape, version order) discharged here too.',
+    'C12': 'Also: the outgoing queue _connect creates is an unbounded FIFO; dependencies (write dispatch, generic field writer, VarInt.send) '
+           'discharged here too.',
+    'C13': 'Also: class invariant over every packet class of every supported version - truth is identity (no __bool__ / __len__), because '
+           'the networking thread takes a false value for "nothing read".',
+    'C14': 'Also: every exception class the library defines is an Exception (the contracts quantify over Exception); the real thread wrapper is run '
+           'with one instance of each; dependencies (lifecycle, connect model, handshake shape, write dispatch and lock) discharged here too.',
+    'C15': 'Also: the default version the fallback uses (Connection.__init__: latest allowed version in publication order); dependencies '
+           '(connect shape, lifecycle, connect model, PacketBuffer, write dispatch) discharged here too.',
+    'C16': 'Also: NetworkingThread.run hand-over (installs itself and clears the successor slot whether or not the predecessor is still alive), '
+           'a second close() of the cipher wrappers does not raise (cipher contexts modelled: finalize twice raises), _connect resets framing and '
+           'creates an unbounded queue; dependencies (connect shape, write dispatch and lock) discharged here too.',
+    'C17': 'Also: the server id that is hashed is exactly what String.read decodes (strict UTF-8, nothing stripped): the String unit of C02 is '
+           'discharged under this property too.',
+    'C18': 'Also: the networking thread takes the stream from the connection at every read (the decrypting wrapper is installed mid-batch); '
+           'dependencies (verification hash, frame writer, generic field writer, VarInt.send) discharged here too.',
+    'C19': 'Token states include empty-but-present profile id / name (authenticated; join must post).',
+    'C20': 'Also: a map created for an unknown id shares no mutable state with any other map; Packet(**values) / set_values store every given '
+           'value incl. None; bounded in-order replay of histories over a pool of map ids.',
+}
+for _pid, _t in EXTRA.items():
+    CLAIMED[_pid]['text'] = CLAIMED[_pid]['text'].rstrip() + ' ' + _t
+CLOSURE = (' Every library function these units use through its contract is discharged from its real body by a unit of THIS check '
+           '(tools/closure_audit.py; externals such as pynbt, BytesIO, struct, zlib, cryptography, requests are assumptions).')
+for _pid in CLAIMED:
+    CLAIMED[_pid]['note'] = CLAIMED[_pid]['note'].rstrip() + CLOSURE
+
+
 def main():
     checks = []
     for pid in sorted(CLAIMED):
